@@ -1,6 +1,7 @@
 /- reflection operations of the line protocol (domain `rfl`): Go types and Go data on the wire -/
 import Driver.Ops
 import SMD.Model.Reflect
+import SMD.Model.ReflectSet
 open SMD SMD.Wire
 namespace Driver
 
@@ -129,9 +130,38 @@ def encOptValue : Option Value → String
   | some v => encValue v
   | none => "unsupported"
 
+/-- `Q` step* `;` with step = `k<Str>` (a key) or `i<digits>;` (an index) -/
+def pStep : P Step
+  | 'k' :: cs => (pStr cs).map fun (s, r) => (.key s, r)
+  | 'i' :: cs =>
+    match pNat cs with
+    | some (i, ';' :: r) => some (.index i, r)
+    | _ => none
+  | _ => none
+
+def pSteps : P (List Step)
+  | 'Q' :: cs => pMany pStep ';' cs []
+  | _ => none
+
+/-- `ok <Value>` (the reading of the whole root afterwards), `refused`, `panic`; `unsupported` when the
+input does not type-check or the result cannot be read -/
+def encSetOutcome (t : GoType) (root : GoVal) (o : SetOutcome) : String :=
+  if !GoVal.hasType t root then "unsupported"
+  else match o with
+    | .ok root' =>
+      (match reflectV t root' with
+       | some v => "ok " ++ encValue v
+       | none => "unsupported")
+    | .refused => "refused"
+    | .panic => "panic"
+
 def opsRfl : List (String × P String) := [
   ("rfl.conv", arg pGoType fun t => arg pGoVal fun v => done (encOptValue (reflectV t v))),
-  ("rfl.json", arg pGoType fun t => arg pGoVal fun v => done (encOptValue (jsonV t v)))
+  ("rfl.json", arg pGoType fun t => arg pGoVal fun v => done (encOptValue (jsonV t v))),
+  ("rfl.set", arg pGoType fun t => arg pGoVal fun v => arg pSteps fun p => arg pStr fun k => arg pValue fun x =>
+      done (encSetOutcome t v (goSetAt t v p k x))),
+  ("rfl.del", arg pGoType fun t => arg pGoVal fun v => arg pSteps fun p => arg pStr fun k =>
+      done (encSetOutcome t v (goDeleteAt t v p k)))
 ]
 
 end Driver
